@@ -57,14 +57,8 @@ func profiles() map[string]Profile {
 
 	p = base
 	p.Name = "C13any" // aggregates and search order also under lower-priority overwrites
-	p.Shape, p.Set, p.Del = 10, 40, 12
+	p.Shape, p.Set, p.Del, p.Visit = 10, 40, 12, 8
 	m["C13any"] = p
-
-	p = base
-	p.Name = "C09"
-	p.MemOnly = 0
-	p.Flush, p.Revert, p.Reopen, p.Snap, p.SnapClose, p.Visit, p.Copy = 10, 3, 5, 3, 2, 5, 2
-	m["C09"] = p
 
 	p = base
 	p.Name = "C11"
@@ -79,14 +73,8 @@ func profiles() map[string]Profile {
 
 	p = base
 	p.Name = "C13"
-	p.Shape, p.Set, p.Del, p.NoLowerOverwrite = 10, 40, 12, true
+	p.Shape, p.Set, p.Del, p.NoLowerOverwrite, p.Visit = 10, 40, 12, true, 8
 	m["C13"] = p
-
-	p = base
-	p.Name = "C14"
-	p.MemOnly = 0
-	p.Flush, p.Image, p.Copy, p.BigVals, p.SetColl, p.RmColl, p.MaxColls = 12, 8, 3, true, 4, 2, 6
-	m["C14"] = p
 
 	p = base
 	p.Name = "C10"
@@ -124,7 +112,7 @@ func profiles() map[string]Profile {
 	p = base
 	p.Name = "C14"
 	p.MemOnly = 0
-	p.Flush, p.Image, p.Copy, p.BigVals, p.SetColl, p.RmColl, p.MaxColls = 12, 8, 3, true, 4, 2, 6
+	p.Flush, p.Image, p.Copy, p.BigVals, p.SetColl, p.RmColl, p.MaxColls, p.Fill = 12, 8, 3, true, 4, 2, 6, 2
 	p.FlushExtra = []string{"image %F", "imagehex %F", "opendump %F"}
 	m["C14"] = p
 
@@ -135,6 +123,13 @@ func profiles() map[string]Profile {
 	p.Snap, p.SnapClose, p.BigVals = 2, 1, true
 	p.KeyOnlyReads = true
 	m["C19"] = p
+
+	pn := base
+	pn.Name = "C12n" // no load-time comparator callback: SetCollection on an existing name must install the comparator (C12) and visits must then run under it (C06)
+	pn.NoCmpCallback, pn.Revert, pn.SnapRevert, pn.Copy = true, 0, 0, 0
+	pn.Reopen, pn.Flush, pn.Visit, pn.Iter, pn.SetColl, pn.RmColl, pn.Snap, pn.SnapClose, pn.Min, pn.Max = 10, 10, 10, 4, 3, 2, 3, 2, 3, 3
+	pn.Cfg = func(r *rand.Rand) int { return cbNoKeyCmp }
+	m["C12n"] = pn
 
 	p.Name = "C19cb" // the same read-log checks under every neutral subset of the callbacks (C17 x C19)
 	p.Cfg = func(r *rand.Rand) int { return r.Intn(256) }
